@@ -20,7 +20,7 @@ def run(ctx, out):
                 f.roles = 'explicit'
             if f.name.startswith('two steps'):
                 f.roles = 'ordval'
-    S.run_check(ctx, out, 'C05', fams, {'C05'}, outcomes=('Success', 'Failure', 'Interrupted'))
+    S.run_check(ctx, out, 'C05', fams + S.pool_families(ctx.tier)[:1], {'C05'}, outcomes=('Success', 'Failure', 'Interrupted'))
     out.coverage.update({
         'explanation': 'states = path classes over graph shape x dirty bits x completion order x outcome of every completion x -k',
         'bounds': {'steps': '2-4', 'outcomes': ['Success', 'Failure', 'Interrupted'], 'k': 'absent, or any value >= 1 (symbolic)'},
